@@ -55,6 +55,28 @@ def run(ctx):
     txt = shipped_docs.decode()
     marks = dict((m.group(2), m.group(1) == "heavy_check_mark") for m in re.finditer(r"\|:(heavy_check_mark|white_check_mark):\[(\w+)\]", txt))
 
+    # the listing follows the registrations (no stale snapshot): before / after the second phase, in a process without the analyzer
+    hdir = os.path.join(ctx.scratch, "harness")
+    pre_bin = ctx.path("bin", "vhpre")
+    rb = subprocess.run(["go", "build", "-o", pre_bin, "./cmd/vhpre"], cwd=hdir, env=vlib.goenv(), capture_output=True, text=True)
+    if rb.returncode != 0:
+        raise vlib.Infra("vhpre build failed: " + rb.stderr[-800:])
+    pre = json.loads(subprocess.run([pre_bin], capture_output=True, text=True).stdout)
+    gnames = sorted(g["name"] for g in groups)
+    if sorted(set(pre["post"]) - set(pre["pre"])) != gnames or pre["post"] != pre["post2"] or pre["err2"]:
+        ctx.fail("ListingStale", "GetCheckersInfo lists %d checkers before and %d after InitEmbeddedRules (second call: %d, err %r); the rule source has %d groups, missing from the listing: %s"
+                 % (len(pre["pre"]), len(pre["post"]), len(pre["post2"]), pre["err2"], len(gnames), sorted(set(gnames) - set(pre["post"]))[:5]), {})
+    # the default selection the binary really applies vs the marks of the overview page
+    hb = subprocess.run([binp, "check", "-help"], capture_output=True, text=True, env=vlib.goenv())
+    mh = re.search(r"-enable string\n.*?\(default \"([^\"]*)\"\)", hb.stdout + hb.stderr, re.S)
+    if not mh:
+        raise vlib.Infra("cannot read the default -enable list from `go-critic check -help`")
+    cli_default = sorted(mh.group(1).split(","))
+    marked = sorted(n for n in marks if marks[n])
+    if cli_default != marked:
+        ctx.fail("DefaultMark cli", "docs/overview.md marks %d checkers as enabled by default, `go-critic check` enables %d by default; differing: %s"
+                 % (len(marked), len(cli_default), sorted(set(marked) ^ set(cli_default))[:8]), {})
+
     def fact(name, tags, summary, before, after):
         return "<<%s, %s, %s, %s, %s>>" % (q(name), tset(sorted(q(t) for t in tags)), q(summary), q(before), q(after))
     gfacts = [fact(g["name"], g["tags"], g["summary"], g["before"], g["after"]) for g in groups]
@@ -67,7 +89,9 @@ def run(ctx):
     cfg += "  RegistryNames = %s\n  DocCmdNames = %s\n  OverviewNames = %s\n" % (tset(q(n) for n in names), tset(q(n) for n in doc_names), tset(q(n) for n in sorted(marks)))
     cfg += "  DefaultMarked = %s\n  DocDefaultNames = %s\n" % (tset(q(n) for n in sorted(marks) if marks[n]), tset(q(n) for n in docdef))
     cfg += "  ShippedIR = %s\n  CompiledIR = %s\n  ShippedDocs = %s\n  RenderedDocs = %s\n" % (h(shipped_ir), h(compiled_ir), h(shipped_docs), h(rendered_docs))
-    cfg += "INVARIANTS Shipped OneCheckerPerGroup DocsExact MarksAgree\n"
+    cfg += "  ListedBeforeInit = %s\n  ListedAfterInit = %s\n  GroupNames = %s\n  CliDefaultNames = %s\n" % (
+        tset(q(n) for n in pre["pre"]), tset(q(n) for n in pre["post2"]), tset(q(n) for n in gnames), tset(q(n) for n in cli_default))
+    cfg += "INVARIANTS Shipped OneCheckerPerGroup DocsExact MarksAgree ListingFollowsRegistration\n"
     # tuples cannot be written in a cfg: put them into a generated module that extends RegistryFacts
     mod = "---- MODULE RegistryFactsMC ----\nEXTENDS RegistryFacts\nCGroupFacts == %s\nCEmbeddedFacts == %s\n====\n" % (tset(gfacts), tset(efacts))
     open(ctx.spec_path("RegistryFactsMC.tla"), "w").write(mod)
